@@ -8,7 +8,12 @@ import Driver.Util
       raw   = the start argument split at `/`: `/`-separated components, an empty component is `e`
       layout = `;`-separated directories `path:entries`, entries `,`-separated names
     answer: `module|package <file> <sys.path entry> <project dir>`, `notfound` or `importerror`,
-      followed by ` h<0|1>`: 1 iff every directory from the start up to the root is listed (hypothesis of `find_complete`) -/
+      followed by ` h<0|1>`: 1 iff every directory from the start up to the root is listed (hypothesis of `find_complete`)
+
+    hist <start> <step> <step> …      a history on ONE loader object (`runLoader`)
+      start = `-` (no explicit start) or `<abs:0|1>,<raw>`
+      step  = `cd=<path>` | `fs=<layout>` | `load=<name>` | `start`
+      answer: the answers of the `load` steps (as above, without the hypothesis flag) joined by `|` -/
 open Inv.Loader Drv
 
 def splitNE (s : String) (sep : String) : List String := if s.isEmpty then [] else s.splitOn sep
@@ -29,8 +34,43 @@ def prefixesNE : Path → List Path
   | [] => []
   | c :: r => [c] :: (prefixesNE r).map (fun x => c :: x)
 
+def showLoad (isPkg : Bool) : LoadR → String
+  | .ok l => (if isPkg then "package " else "module ") ++ encPath l.file ++ " " ++ encPath l.sysPath ++ " " ++ encPath l.parent
+  | .collectionNotFound => "notfound"
+  | .importError => "importerror"
+
+def decStart (s : String) : LoaderObj :=
+  if s == "-" then ⟨none⟩ else
+    match s.splitOn "," with
+    | [ab, raw] => ⟨some (ab == "1", decRaw raw)⟩
+    | _ => ⟨none⟩
+
+def decLStep (s : String) : Option LStep :=
+  if s == "start" then some .readStart
+  else if s.startsWith "cd=" then some (.chdir (decPath (s.drop 3).toString))
+  else if s.startsWith "fs=" then
+    let lay := (s.drop 3).toString
+    some (.setFs (fsOf (decLayout (if lay == "-" then "" else lay))))
+  else if s.startsWith "load=" then some (.load (decChars (s.drop 5).toString))
+  else none
+
+/-- is the thing found by each `load` of the history a package? (only the module/package tag of the answer
+    line; the answers themselves come from `runLoader`) -/
+def histKinds (l : LoaderObj) : World → List LStep → List Bool
+  | _, [] => []
+  | w, .load name :: r => (match l.findAt w.fs w.cwd name with | .package _ => true | _ => false) :: histKinds l w r
+  | w, s :: r => histKinds l (s.after w) r
+
 def step (line : String) : String :=
   match line.splitOn " " with
+  | "hist" :: start :: steps =>
+    let ss := steps.map decLStep
+    if ss.any Option.isNone then "bad-step"
+    else
+      let sl := ss.filterMap id
+      let l := decStart start
+      let w : World := ⟨fsOf [], []⟩
+      "|".intercalate (List.zipWith showLoad (histKinds l w sl) (runLoader l w sl))
   | ["load", name, cwd, ab, raw, lay] =>
     let fs := fsOf (decLayout (if lay == "-" then "" else lay))
     let nm := decChars name
